@@ -54,6 +54,8 @@ def mux_spec(inputs, pal=0, rs_list=False, rails=False, by_rail=False, below="st
     a = copy.deepcopy(args)
     if rs_list:
         a["rs"] = [_r(args["rs"] * (1 + 0.5 * j)) for j in range(k)]
+        if rs_list == "neg":   # per-input resistances written with a negative sign are magnitudes
+            a["rs"] = [-x for x in a["rs"]]
     if ig_table:  # planar 2-D ground-current table: the lookup must use the SELECTED input's voltage
         Vp = PALETTES[pal]["V"]
         io_ax, vi_ax = [0.0, 0.05, 0.5], [_r(0.4 * Vp), _r(1.6 * Vp)]
